@@ -22,12 +22,13 @@ FaultMethods(f) ==
     [] f = "spline_timevar" -> {"SP"}
     [] f = "spline_nonlin"  -> {"SP"}
     [] f = "roots_shooting" -> {"MS", "SS"}
+    [] f = "alg_explicit_euler" -> {"MS", "SS"}
     [] f = "inf_no_guarantee" -> {"MS", "SS"}      \* grid='inf' with a scheme that has no degree-4 dense output (C15)
     [] OTHER -> Methods
 Faults == {"none", "no_der", "no_value", "no_method", "no_solver", "signal_objective", "nonscalar_objective",
            "set_value_nonparam", "set_initial_param", "set_initial_unknown", "unknown_grid_subject_to", "unknown_grid_sample",
            "foreign_symbol_constraint", "foreign_symbol_objective", "foreign_symbol_ode", "false_constant_constraint",
-           "alg_explicit", "spline_timevar", "spline_nonlin", "horizon_in_ode", "roots_shooting", "no_next", "inf_no_guarantee"}
+           "alg_explicit", "spline_timevar", "spline_nonlin", "horizon_in_ode", "roots_shooting", "no_next", "inf_no_guarantee", "alg_explicit_euler", "false_after_fill"}
 (* omission faults have no position: the step is simply missing *)
 Omission == {"no_der", "no_value", "no_method", "no_solver", "no_next"}
 
@@ -38,7 +39,7 @@ Cfgs == {c \in [fault : Faults, meth : Methods, where : Where, pos : Positions] 
             /\ c.meth \in FaultMethods(c.fault)
             /\ (c.fault \in Omission \cup {"none"} => c.pos = "late")
             /\ (c.fault = "no_next" => c.meth \in {"MS", "SS"})
-            /\ (c.fault = "inf_no_guarantee" => c.pos # "early")}     \* it replaces the method, so it must come after ocp.method
+            /\ (c.fault \in {"inf_no_guarantee", "alg_explicit_euler"} => c.pos # "early")}     \* it replaces the method, so it must come after ocp.method
 
 Init == cfg \in Cfgs /\ defects = {} /\ phase = "declaring" /\ raised = FALSE /\ solverCalls = 0
 
